@@ -148,7 +148,11 @@ def run(ck, prog, ctx):
                                     fl = field_names(pv.of_operand(da, gt.args[0]), "::HpoTerm")
                                     kinds.add("direct" if "parents" in fl and "all_parents" not in fl else "closure")
                     consts[v] = kinds
-        ck.ob("FIELD", "distance_to_ancestor/base", consts.get(0) == {"identity"} and consts.get(1) == {"direct"}, "distance_to_ancestor returns %s" % {k: sorted(v) for k, v in sorted(consts.items())}, where=da.where())
+        if consts.get(0) == {"identity"} and 1 not in consts and da.natural_loops():
+            # an iterative (level by level) search has no constant `Some(1)` base case: its counter starts somewhere and is returned from the loop
+            ck.undecided("FIELD", "distance_to_ancestor/base", "distance_to_ancestor is iterative (its step counter is returned from a loop): the base cases of the recursive form do not apply", where=da.where())
+        else:
+            ck.ob("FIELD", "distance_to_ancestor/base", consts.get(0) == {"identity"} and consts.get(1) == {"direct"}, "distance_to_ancestor returns %s" % {k: sorted(v) for k, v in sorted(consts.items())}, where=da.where())
         incs = []
         for fb in prog.family(da):
             for _, st in fb.stmts():
